@@ -79,6 +79,9 @@ func deepTexts(n int) []string {
 		t := scale.Nested(n, pretty)
 		out = append(out, t, t+"x;}", t+"}x;", strings.TrimSuffix(strings.TrimSuffix(t, "\n"), "}"))
 	}
+	la, _ := scale.LongArgs(n)
+	lb, _ := scale.LongArgs(n * 37)
+	out = append(out, la.Text, lb.Text, scale.Counts(n).Text)
 	open, close := strings.Repeat("k{", n), strings.Repeat("}", n)
 	out = append(out, open+close, open+"a b;"+strings.Repeat("}/*c*/", n), open+"a b;"+close+close, strings.Repeat("k a;", n), strings.Repeat("k{}", n))
 	return out
@@ -91,7 +94,7 @@ func run(c *core.Ctx) {
 			sizes = append(sizes, n)
 		}
 		sizes = append(sizes, 511, 512, 513, 1023, 1024, 1025)
-		c.Res.Bound = "nesting depth 1..300, 511..513, 1023..1025 in 13 layouts"
+		c.Res.Bound = "nesting depth 1..300, 511..513, 1023..1025 in 13 layouts; arguments of n and 37 n bytes; n statements of one kind"
 		for _, n := range sizes {
 			for _, text := range deepTexts(n) {
 				if c.Expired() {
